@@ -5,7 +5,7 @@ real PDUs between a client stack and a device stack on the virtual LAN (harness/
 coq/theories/Obj.v (`run device ops` = canonical replies + canonical final `_values`).
 Direct: the implementation-only predicate of the property statement (weakest reading)."""
 import copy, logging
-from core import Case
+from core import Case, nlist
 from pyerr import exc_code
 import os, sys
 import vnet, valgen
@@ -15,9 +15,10 @@ from gen_objtables import (KEEP, ERRNAME, DEV_PIDS, code, cid, classes, atom_cod
                            q_opt, q_elem, q_sdt, q_dt, q_bool, pid_num, _CODES, _CIDS)
 
 PROP = 'C15'
-COQ_TARGETS = ['theories/ObjFacts.vo', 'theories/ObjRw.vo', 'theories/ObjRpm.vo', 'gen/ObjTables.vo', 'theories/ObjTablesFacts.vo']
+COQ_TARGETS = ['theories/ObjFacts.vo', 'theories/ObjRw.vo', 'theories/ObjRpm.vo', 'gen/ObjTables.vo', 'theories/ObjTablesFacts.vo', 'gen/Schemas.vo', 'theories/ObjCodec.vo']
 TABLE_OBLIGATIONS = ['all_tables_ok']
-COQ_IMPORTS = 'From Bac Require Import Base Obj.\nFrom BacGen Require Import ObjTables.'
+COQ_IMPORTS = ('From Bac Require Import Base Tag Schema Codec Obj ObjCodec.\nFrom BacGen Require Import Schemas ObjTables.\n'
+               'Import Obj.')
 RULE = ('histories: a device with 2-3 objects drawn from the 63 registered object types (the registered class itself, or a '
         'subclass re-declaring every property mutable), about half of the properties initialised with values generated from '
         'their datatype, plus the local device object restricted to its plain properties; 8-12 requests each: ReadProperty, '
@@ -25,18 +26,25 @@ RULE = ('histories: a device with 2-3 objects drawn from the 63 registered objec
         'foreign constructed value, wrong element type, wrong fixed length), ReadPropertyMultiple (specific references, '
         'all/required/optional, unknown objects), array index classes none/0/1..n/n+1/huge, priorities none/1..16, unknown '
         'objects and properties, wildcard device id.  One correspondence case = one history (replies of every request + final '
-        '_values of every object).  non-trivial = the history has at least one acknowledged write and one refused request; '
+        '_values of every object), plus two fixed scenarios (array of bit strings; index 0 of arrays of strings/enumerations through RPM).  '
+        'direct only: 120 (quick) histories on the commandable *CmdObject classes of local/object.py: commands and relinquishes at '
+        'priorities none/1..16, wrong-typed commands, each followed by reads of presentValue, priorityArray (whole, [0], [p], [17]) and '
+        'relinquishDefault against a priority-array oracle.  non-trivial = the history has at least one acknowledged write and one refused request; '
         'distinct by (device, request list).')
 TRUSTED = ['model coq/theories/Obj.v written by hand after object.py Property.ReadProperty/WriteProperty, service/object.py, '
            'constructeddata.py ArrayOf/Any.cast_out, app.py Application.indication; tie = correspondence',
-           'decoding of Sequence/Choice values (Any.cast_out of a constructed class) is not modelled in Obj.v: its outcome on the '
-           'request tag list is computed by the harness with a stand-alone cast_out call and given to the model (fields w_one/w_many)',
-           'values are abstracted to (application tag, code) / (class, code) by interning their encoded tags (harness table)']
+           'decoding of Sequence/Choice values (Any.cast_out of a constructed class) is not in Obj.v: the fields w_one/w_many of an '
+           'abstract request are computed inside Coq by Bac.ObjCodec (codec_one/codec_many = the C03 model Codec.decode/encode over '
+           'the class schema of gen/Schemas.v, applied to the concrete request tags); only for a class without a schema there '
+           '(about 1 % of the casts, counted as history+implementation-cast) is the outcome taken from a stand-alone cast_out call',
+           'atomic values are abstracted to (application tag, code) by interning their encoded tag (harness table, Unsigned = the number); '
+           'constructed values to (class id, digest of the tags they encode to)']
 ASSUMPTIONS = ['no property monitors / COV services are attached (Property.WriteProperty monitor calls not modelled)',
                'array-valued properties hold ArrayOf instances and objects do not share value instances (no class-level defaults)',
                'application tags in requests are well formed (lengths valid for their kind)',
                'property classes overriding ReadProperty/WriteProperty (local device object, ObjectIdentifierProperty with a foreign '
-               'object type, commandable objects of local/object.py) are outside the model; priority is ignored by Property.WriteProperty']
+               'object type, commandable objects of local/object.py) are outside the Coq model; commandable objects are covered by the direct '
+               'predicate only (priority-array oracle); plain Property.WriteProperty ignores priority']
 
 _ENV = {}
 _TABLES = {}
@@ -450,6 +458,7 @@ def abs_wire(any_, obj, pid):
         else:
             tags.append('WOther')
     one = many = ('err', 18)
+    qone = qmany = None
     prop = obj._properties.get(pid) if obj is not None else None
     if prop is not None:
         dt = prop.datatype
@@ -457,18 +466,50 @@ def abs_wire(any_, obj, pid):
         if issubclass(dt, (C.Array, C.List)):
             if not issubclass(dt.subtype, P.Atomic):
                 X = dt.subtype
+        elif not issubclass(dt, (P.Atomic, C.AnyAtomic)):
+            X = dt
+        if X is not None and schema_name(X) is not None:
+            # the C03 model decides (Bac.ObjCodec): concrete tags of the request + the class's schema
+            ctags = '[' + ';'.join('(mkTag %d %d %d %s)' % (t.tagClass, t.tagNumber, t.tagLVT, nlist(bytes(t.tagData)))
+                                   for t in any_.tagList.tagList) + ']'
+            qone = '(codec_one %d %s %s)' % (cid(X), schema_name(X), ctags)
+            if X is not dt:
+                isarr = issubclass(dt, C.Array)
+                fx = '(Some %d%%N)' % dt.fixed_length if (isarr and dt.fixed_length is not None) else 'None'
+                qmany = '(codec_many %d %s %s %s %s)' % (cid(X), schema_name(X), q_bool(isarr), fx, ctags)
+            ORACLE['codec'] += 1
+        elif X is not None:
+            # class without a schema in gen/Schemas.v: outcome supplied from a stand-alone cast_out call
+            ORACLE['implementation'] += 1
+            if X is not dt:
                 try:
                     many = ('ok', [abs_elem(X, v) for v in any_.cast_out(dt)])
                 except Exception as ex:
                     many = ('err', exc_code(ex))
-        elif not issubclass(dt, (P.Atomic, C.AnyAtomic)):
-            X = dt
-        if X is not None:
             try:
                 one = ('ok', abs_elem(X, any_.cast_out(X)))
             except Exception as ex:
                 one = ('err', exc_code(ex))
-    return '(mkW [%s] %s %s)' % (';'.join(tags), q_res(one, q_elem), q_res(many, q_elems))
+    return '(mkW [%s] %s %s)' % (';'.join(tags), qone or q_res(one, q_elem), qmany or q_res(many, q_elems))
+
+
+ORACLE = {'codec': 0, 'implementation': 0}
+_SCHEMAS = {}
+
+
+def schema_name(X):
+    """T_<Class> if gen/Schemas.v (property C03) has a schema for the class, else None"""
+    if not _SCHEMAS:
+        import core, re
+        try:
+            txt = open(os.path.join(core.COQ, 'gen', 'Schemas.v')).read()
+        except OSError:
+            txt = ''
+        _SCHEMAS['names'] = set(re.findall(r'^Definition (T_\w+) : ty', txt, flags=re.M))
+    if X.__module__ not in ('bacpypes.basetypes', 'bacpypes.apdu'):
+        return None
+    n = 'T_' + X.__name__
+    return n if n in _SCHEMAS['names'] else None
 
 
 def c_value_items(bench, oid, pid, idx, any_):
@@ -659,6 +700,7 @@ def history_case(rng, nops=None, scenario=None):
         scenario[0](bn)
         script = scenario[1](bn)
     qdev = bn.q_device()
+    oracle0 = dict(ORACLE)
     qops, expected, descs = [], [], []
     acks = refusals = 0
     for _ in range(nops or rng.randint(10, 14)):
@@ -681,7 +723,11 @@ def history_case(rng, nops=None, scenario=None):
     expected += [-7, digest(full)]
     coq = 'run %s\n [%s]' % (qdev, ';\n  '.join(qops))
     types = [o.objectIdentifier[0] for o in bn.objects]
-    return Case('history', coq, expected, key=coq, nontrivial=(acks >= 1 and refusals >= 1),
+    kind = ('history+implementation-cast' if ORACLE['implementation'] > oracle0['implementation'] else
+            'history+codec-cast' if ORACLE['codec'] > oracle0['codec'] else 'history')
+    if scenario is not None:
+        kind = 'scenario'
+    return Case(kind, coq, expected, key=coq, nontrivial=(acks >= 1 and refusals >= 1),
                 desc={'objects': types, 'ops': descs})
 
 
